@@ -4,6 +4,7 @@ import hashlib
 import json
 import multiprocessing as mp
 import os
+import re
 import sys
 import time
 import traceback
@@ -49,8 +50,32 @@ def load_known_findings():
     return _kf_cache
 
 
+class _FpSet:
+    """Recorded fingerprints of one property.  An entry is an exact fingerprint, or — only where one defect shows
+    under a family of inputs, e.g. every flag word — a pattern with '*' standing for one bracket-free token."""
+
+    def __init__(self, entries):
+        self.entries = list(entries)
+
+    @staticmethod
+    def _match(pattern, fp):
+        if '*' not in pattern:
+            return pattern == fp
+        rx = '^' + '[^\\[\\],:/]*'.join(re.escape(x) for x in pattern.split('*')) + '$'
+        return re.match(rx, fp) is not None
+
+    def find(self, fp):
+        for e in self.entries:
+            if self._match(e['fingerprint'], fp):
+                return e
+        return None
+
+    def __contains__(self, fp):
+        return self.find(fp) is not None
+
+
 def known_fingerprints(pid):
-    return {f['fingerprint'] for f in load_known_findings().get('findings', []) if f['property'] == pid}
+    return _FpSet(f for f in load_known_findings().get('findings', []) if f['property'] == pid)
 
 
 # evidence/ and replays/ normally live in /verif; VERIF_OUT redirects them (used when the checks are pointed at a
@@ -114,10 +139,7 @@ class Ctx:
     def finish(self):
         """Write evidence, print verdict lines, return exit code."""
         known = load_known_findings()
-        kf = {}
-        for f in known.get('findings', []):
-            if f['property'] == self.pid:
-                kf[f['fingerprint']] = f
+        kf = known_fingerprints(self.pid)
         exit_code = 0
         n_unlisted = 0
         os.makedirs(os.path.join(OUT, 'replays'), exist_ok=True)
@@ -125,7 +147,7 @@ class Ctx:
             vs = self.violations[fp]
             if fp in kf:
                 print('KNOWN-FINDING: property=%s %s [%s] (%d cases this run)' %
-                      (self.pid, kf[fp]['what'], fp, self.viol_counts[fp]))
+                      (self.pid, kf.find(fp)['what'], fp, self.viol_counts[fp]))
                 continue
             # replay before report
             v = vs[0]
